@@ -79,7 +79,8 @@ Need(i) == IF cfg.streaming \/ Denied(i) THEN reqs[i].headEnd ELSE reqs[i].end
 MustReject(i) == \/ reqs[i].bad \/ (reqs[i].big /\ ~cfg.streaming)
                  \/ (reqs[i].partial /\ (~cfg.streaming \/ reqs[i].end < reqs[i].headEnd))
 \* a request cut short inside its body may, in streaming mode, be handled (its stream then fails) or rejected
-Rejectable(i) == MustReject(i) \/ reqs[i].partial
+\* ... and so may a request that carries both Transfer-Encoding and Content-Length (if it is handled, then as chunked)
+Rejectable(i) == MustReject(i) \/ reqs[i].partial \/ reqs[i].ambig
 
 \* tracer (C19): DoStart / DoFinish.  A handler runs inside an open pair, at most one handler per pair; the finish
 \* of a pair comes after the response of the request handled in it and carries that request.
@@ -230,13 +231,15 @@ NothingAfterClose == \A k \in 1 .. Len(out) - 1 : ~out[k].close
 
 \* C02: when the connection is over and everything was delivered, the outcome is a function of the script:
 \* the handled requests are exactly the prefix up to the first request that closes / is rejected
-Stops(i) == reqs[i].close \/ reqs[i].hclose \/ Rejectable(i) \/ cfg.wfail = i \/ cfg.nokeep
+Stops(i) == reqs[i].close \/ reqs[i].hclose \/ MustReject(i) \/ reqs[i].partial \/ cfg.wfail = i \/ cfg.nokeep
 FirstStop == IF \E i \in 1 .. N : Stops(i)
              THEN CHOOSE i \in 1 .. N : Stops(i) /\ \A j \in 1 .. i - 1 : ~Stops(j)
              ELSE N + 1
 ExpectedHandled == IF FirstStop <= N /\ MustReject(FirstStop) THEN FirstStop - 1 ELSE IF FirstStop <= N THEN FirstStop ELSE N
 \* a request cut short inside its body (streaming) may or may not have reached its handler
 HandledOK(n) == \/ n = ExpectedHandled
+                \* a request with both Transfer-Encoding and Content-Length may have been refused instead
+                \/ \E i \in 1 .. N : reqs[i].ambig /\ i <= FirstStop /\ n = i - 1
                 \/ (FirstStop <= N /\ reqs[FirstStop].partial /\ ~MustReject(FirstStop) /\ ~reqs[FirstStop].close
                     /\ ~reqs[FirstStop].hclose /\ cfg.wfail # FirstStop /\ n = FirstStop - 1)
 \* a voluntary server close (allowed) can only shorten the outcome; without it the outcome is exact
